@@ -697,16 +697,6 @@ def decorate(rng, doc, p=0.5):
     return d, tags
 
 
-def small_scale(rng, doc):
-    """A well-formed document with one more soft module whose area (2^-50) is many orders of magnitude below the other
-    dimensions: valid, and the smallest distance of the design (the geometric tolerances become smaller than
-    the rounding of the coordinates)."""
-    d = deep(doc)
-    name = next(n for n in ["tiny", "tiny_", "tiny__"] + ["t" * k for k in range(3, 40)] if n not in d["Modules"])
-    d["Modules"] = insert_at(rng, d["Modules"], name, {"area": rng.choice([TINY, TINY * 4, F(1, 2 ** 40)])})
-    return d
-
-
 # --------------------------------------------------------------------------
 # YAML text written by hand
 # --------------------------------------------------------------------------
@@ -1024,9 +1014,10 @@ SIZES_QUICK = [dict(modules=10), dict(modules=17), dict(modules=33), dict(module
                dict(modules=5, rects=9), dict(modules=5, rects=10), dict(modules=5, rects=17), dict(modules=5, rects=33),
                dict(modules=5, rects=65), dict(modules=4, name_len=32), dict(modules=4, name_len=33), dict(modules=4, name_len=64),
                dict(modules=4, name_len=255), dict(modules=4, name_len=256), dict(modules=4, name_len=1000),
+               dict(modules=4, name_len=4097),
                dict(modules=4, regions=9), dict(modules=4, regions=17), dict(modules=4, regions=33)]
 SIZES_THOROUGH = SIZES_QUICK + [dict(modules=9), dict(modules=16), dict(modules=32), dict(modules=64), dict(modules=100),
                                 dict(modules=256), dict(modules=1001), dict(modules=300, nets=257, arity=4),
                                 dict(modules=300, nets=2, arity=257), dict(modules=5, rects=101), dict(modules=5, rects=161),
-                                dict(modules=4, name_len=4097), dict(modules=4, regions=65), dict(modules=4, regions=101),
+                                dict(modules=4, name_len=8193), dict(modules=4, regions=65), dict(modules=4, regions=101),
                                 dict(modules=20, nets=1001, arity=2)]
